@@ -1,6 +1,7 @@
 # C07 (structural part): no observable effect without authentication; errors map to 'ignore'; no vacuous validation guard
 import re
 from sa.rules import *
+import rules.wave3 as W3
 import rules.shared as shared
 from rules.netcode_common import *
 from rules.oblcommon import obl_rule
@@ -27,6 +28,11 @@ def rules(t, with_obl=True):
     eff += list(t.effects("pending_clients", GROW, h)) + list(t.effects("connect_token_entries", GROW, h))
     eff += [s for s in t.aggrs("server::ServerResult", None, h) if s.node["rv"]["vname"] != "None"]
     eff += list(t.stores(NS, "challenge_sequence", h)) + list(t.stores(NS, "global_sequence", h))
+    # calls of `&mut self` methods of the server (not inlined because they are named functions of the pinned tree) mutate server state as well
+    def mut_self_call(c_):
+        g_ = t.F.fns.get(re.sub(r"::<.*$", "", re.sub(r"::<[^>]*>(?=::)", "", c_.node.get("resolved") or callee_name(c_.node))))
+        return g_ is not None and g_.argc >= 1 and g_.locals[1]["ty"].get("k") == "ref" and g_.locals[1]["ty"].get("mut") and "NetcodeServer" in str(g_.locals[1]["ty"].get("to"))
+    eff += [c_ for c_ in t.calls(r"server::NetcodeServer::", h) if mut_self_call(c_)]
     auth_check(t, h, eff, r, lambda e: (fmt(t.place(e)).split(".")[-1] if e.node["k"] == "assign" and e.node["place"]["proj"] else (e.node["rv"]["vname"] if e.node["k"] == "assign" else method_of(callee_name(e.node)))))
     c = t.fn("NetcodeClient::process_packet")
     eff = []
@@ -78,7 +84,7 @@ def rules(t, with_obl=True):
                 for bb2, c2 in [(b["i"], b["term"]) for b in f.blocks if b["term"]["k"] == "call" and method_of(callee_name(b["term"])) == "is_empty"]:
                     a = c2["args"][0]
                     if a["k"] in ("copy", "move"):
-                        ds = f.defs().get(a["place"]["local"], [])
+                        ds = f.defs1(a["place"]["local"])
                         for _, _, d in ds:
                             if d["k"] == "assign" and d["rv"]["k"] == "cast" and "Unsize" in d["rv"]["ck"]:
                                 src = d["rv"]["op"]
@@ -96,4 +102,5 @@ def rules(t, with_obl=True):
             for v in rr.violations: r.bad(v.key.split("|", 1)[1], v.site, v.msg)
     out.append(r)
     out.append(shared.aead_open_rule(t, "C07.f"))
+    out.append(W3.sign_cast(t, "C07.g"))
     return out
